@@ -233,9 +233,9 @@ def _lin_cases(rng, tier, cs):
             b = _ivec(rng, m)
             x0 = _ivec(rng, n, -3, 3) if rng.random() < 0.8 else [0.0] * n
             niter = rng.choice([0, 1, 2, 3, 4, 6])
-            if solver != 'SLandweber':
-                # floats iterate on rounding noise once the exact recursion has stopped; that regime is
-                # probed separately (finding cgn-past-convergence-blowup), not part of the model comparison
+            if solver == 'SCG':
+                # floats iterate on rounding noise once the exact recursion has stopped (CG has only exact
+                # `== 0` tests); CGN has a relative stopping test since fix d9e50f5 and is run with any budget
                 niter = min(niter, min(m, n) + 1)
                 if exact_stop:
                     niter = rng.choice([2, 3, 5])   # all arithmetic exact: the `== 0` tests fire in floats too
@@ -942,9 +942,9 @@ def _linear_probes(rng, tier, out):
             cb(x)
             niter = rng.choice([3, 8, 20])
             if solver == 'cgn':
-                # budgets up to the dimension; iterating a converged float CGN further is finding
-                # cgn-past-convergence-blowup (separate deterministic probe below)
-                niter = rng.randint(1, min(m, n))
+                # any budget: the relative stopping test (fix d9e50f5) ends the loop at convergence;
+                # the former blow-up input is kept as a regression probe below
+                niter = rng.choice([1, 3, 8, 20])
                 S.conjugate_gradient_normal(op, x, rhs, niter, callback=cb)
                 om = None
             else:
